@@ -212,6 +212,19 @@ def build(run):
         yield "symmetric-vector-scalar rhs without the last block", lambda: (f * vS[0, 0] + f * vv_[1]) * dx
     mixed_route("Sym2x2-P2v-P1", (SYM, P2v, P1), forms_sym)
 
+    # a full (non-symmetric) tensor-valued sub-element: lists of entries taken from different rows / columns of the sub-function (diagonals,
+    # anti-diagonals, transposes) must stay those entries after the sub-function has been replaced by the sub-space argument
+    P1t = E.LagrangeElement(cell, 1, (2, 2))
+
+    def forms_tensor(v, u):
+        (vT, vq), (uT, uq) = split(v), split(u)
+        yield "diagonal of a tensor sub-function", lambda: (inner(ufl.diag_vector(uT), ufl.diag_vector(vT)) + uq * vq) * dx
+        yield "diagonal against a coefficient vector (rhs)", lambda: dot(ufl.as_vector([f, f * f]), ufl.diag_vector(vT)) * dx + f * vq * ds
+        yield "anti-diagonal and a column", lambda: (dot(ufl.as_vector([uT[0, 1], uT[1, 0]]), ufl.as_vector([vT[0, 0], vT[1, 0]])) + uq * vT[1, 1]) * dx
+        yield "transpose and trace", lambda: (inner(uT.T, vT) + ufl.tr(uT) * vq + uq * ufl.tr(vT)) * dx
+        yield "entries [T_11, T_00] with the scalar", lambda: (dot(ufl.as_vector([uT[1, 1], uT[0, 0]]), ufl.as_vector([vq, vT[0, 1]])) + uq * vq) * dx
+    mixed_route("P1t(2x2)-P1", (P1t, P1), forms_tensor)
+
     # contravariant Piola element on a triangle immersed in 3D (reference size 2, physical size 3) before other sub-elements
     tri3 = mesh("triangle", 3)
     cell3 = tri3.ufl_cell()
